@@ -188,10 +188,11 @@ deriving Repr, Inhabited
 /-- `save_index`. -/
 def saveB (b : Bucket) : Image := ⟨b.sorted.filterMap packSorted?, b.pages.map (·.map packUpd)⟩
 
-/-- stable insertion by key (for `entries.sort_by_key(|e| e.key)`, a stable sort). -/
+/-- stable insertion by key (for `entries.sort_by_key(|e| e.key)`, a stable sort): `e` precedes
+the elements of the already sorted tail, so it goes before every element with an equal key. -/
 def insertByKey (e : Entry) : List Entry → List Entry
   | [] => [e]
-  | x :: xs => if e.key < x.key then e :: x :: xs else x :: insertByKey e xs
+  | x :: xs => if e.key ≤ x.key then e :: x :: xs else x :: insertByKey e xs
 
 def sortByKey : List Entry → List Entry
   | [] => []
